@@ -168,6 +168,36 @@ theorem probeFrom_le (X : StopStage ι ο σ) : ∀ (K : Nat) (c : Cfg σ ο) (x
     · subst h; show (X.demand c xs).2.1.nread ≤ _; omega
     · have := ih _ _ p h; omega
 
+/-- the cut depends only on the items in front of it -/
+theorem cutFrom_congr (X : StopStage ι ο σ) : ∀ (xs ys : List ι) (s : σ),
+    X.cutFrom s xs < xs.length → xs.take (X.cutFrom s xs) = ys.take (X.cutFrom s xs) →
+      X.cutFrom s ys = X.cutFrom s xs := by
+  intro xs
+  induction xs with
+  | nil => intro ys s h; simp at h
+  | cons x xs ih =>
+    intro ys s hlt htake
+    cases hd : X.done s with
+    | true =>
+      have hc : X.cutFrom s (x :: xs) = 0 := by simp [cutFrom, hd]
+      rw [hc]
+      cases ys with
+      | nil => rfl
+      | cons y ys => simp [cutFrom, hd]
+    | false =>
+      have hc : X.cutFrom s (x :: xs) = X.cutFrom (X.base.onItem s x).1 xs + 1 := by
+        simp [cutFrom, hd]
+      rw [hc] at hlt htake ⊢
+      cases ys with
+      | nil => simp at htake
+      | cons y ys =>
+        simp only [List.take_succ_cons, List.cons.injEq] at htake
+        obtain ⟨hxy, ht⟩ := htake
+        subst hxy
+        have := ih ys (X.base.onItem s x).1 (by simp at hlt; omega) ht
+        simp only [cutFrom, hd, Bool.false_eq_true, if_false]
+        rw [this]
+
 /-! ### asked past the end -/
 
 theorem probeFrom_dead (X : StopStage ι ο σ) (s : σ) (r : Nat) : ∀ (K : Nat) (xs : List ι),
@@ -390,6 +420,76 @@ theorem probeFrom_limitX (N : Nat) : ∀ (K m r : Nat) (xs : List α),
           congr 1
           · simp only [decide_eq_decide]; omega
           · omega
+
+/-! ### `takewhile`: the failing item is read, nothing after it -/
+
+theorem takewhileX_finish (n i r : Nat) (xs : List α) :
+    (takewhileX (α := α) n).finish i r xs = (none, ⟨i, [], r, true⟩, xs) := by
+  simp [StopStage.finish, takewhileX, filterS]
+
+theorem probeFrom_takewhileX (n : Nat) : ∀ (K i r : Nat) (xs : List α), i ≤ n →
+    (takewhileX n).probeFrom K ⟨i, [], r, false⟩ xs =
+      (List.range K).map (fun k => (decide (k < min (n - i) xs.length),
+        r + min (k + 1) (min (n + 1 - i) xs.length))) := by
+  intro K
+  induction K with
+  | zero => intro i r xs _; rfl
+  | succ K ih =>
+    intro i r xs hi
+    have hnd : (takewhileX (α := α) n).done i = false := by
+      simp [takewhileX]; omega
+    cases xs with
+    | nil =>
+      simp only [StopStage.probeFrom]
+      rw [StopStage.demand_nil, takewhileX_finish]
+      simp only [Option.isSome_none]
+      rw [StopStage.probeFrom_dead]
+      simp only [List.length_nil, Nat.min_zero, Nat.not_lt_zero, decide_false, Nat.add_zero]
+      rw [← List.replicate_succ]
+      apply List.ext_getElem
+      · simp
+      · intro j h1 h2; simp
+    | cons x xs =>
+      simp only [StopStage.probeFrom]
+      rw [StopStage.demand_read _ _ _ _ _ hnd]
+      by_cases hlt : i < n
+      · have e1 : ((takewhileX (α := α) n).base.onItem i x) = (i + 1, [x]) := by
+          simp [takewhileX, filterS, hlt]
+        rw [e1, StopStage.demand_pend]
+        simp only [Option.isSome_some]
+        rw [ih (i + 1) (r + 1) xs (by omega), List.range_succ_eq_map, List.map_cons, List.map_map]
+        congr 1
+        · simp only [List.length_cons]
+          congr 1
+          · simp; omega
+          · omega
+        · apply List.map_congr_left
+          intro k _
+          simp only [Function.comp, List.length_cons]
+          congr 1
+          · simp only [decide_eq_decide]; omega
+          · omega
+      · have hin : i = n := by omega
+        subst hin
+        have e1 : ((takewhileX (α := α) i).base.onItem i x) = (i + 1, []) := by
+          simp [takewhileX, filterS]
+        have hdone : (takewhileX (α := α) i).done (i + 1) = true := by simp [takewhileX]
+        have hd : (takewhileX (α := α) i).demand ⟨i + 1, [], r + 1, false⟩ xs =
+            (none, ⟨i + 1, [], r + 1, true⟩, xs) := by
+          cases xs with
+          | nil => rw [StopStage.demand_nil, takewhileX_finish]
+          | cons y ys => rw [StopStage.demand_done _ _ _ _ _ hdone, takewhileX_finish]
+        rw [e1, hd]
+        simp only [Option.isSome_none]
+        rw [StopStage.probeFrom_dead]
+        simp only [Nat.sub_self, Nat.zero_min, Nat.not_lt_zero, decide_false, List.length_cons]
+        rw [← List.replicate_succ]
+        apply List.ext_getElem
+        · simp
+        · intro j h1 h2
+          simp only [List.getElem_replicate, List.getElem_map, List.getElem_range]
+          congr 1
+          omega
 
 /-! ### rounding of a spelled count -/
 
